@@ -265,7 +265,7 @@ pub fn run_case(case: &Case, class: &str, rng: &mut Rng8, rep: &mut Report) {
 
 pub fn run(cfg: &Cfg) -> Report {
     let shards = 64;
-    let per = cfg.n(160, 4000);
+    let per = cfg.n(1500, 30000);
     let reports = par_map(shards, |sh| {
         let mut rng = rng_for(cfg.seed, "C12", sh as u64);
         let mut rep = Report::new();
